@@ -20,7 +20,58 @@ pub fn judge_value(ctx: &Ctx, case: &Value) -> Result<(), Fail> {
         let c: GenCase = serde_json::from_value(case.clone()).map_err(|e| Fail::new("harness:replay", e.to_string()))?;
         return props::outputs::replay_judge(ctx, judge, want, &c);
     }
+    let bad = |e: serde_json::Error| Fail::new("harness:replay", e.to_string());
+    if let Some(c) = case.get("cli_case") {
+        let c: props::frontends::CliCase = serde_json::from_value(c.clone()).map_err(bad)?;
+        return props::frontends::replay_cli(ctx, &c);
+    }
+    if let Some(c) = case.get("py_seq") {
+        let c: props::frontends::PySeq = serde_json::from_value(c.clone()).map_err(bad)?;
+        return props::frontends::replay_py(ctx, &c);
+    }
+    if case.get("reach").is_some() {
+        // C12 is existential over a seed range: re-run the batch check
+        let o = props::lib_level::run_c12(ctx);
+        return match o.violation {
+            Some(v) => Err(v.fail),
+            None => Ok(()),
+        };
+    }
+    let mut st = crate::runner::Stats::default();
     match ctx.prop.as_str() {
+        "C07" => {
+            let c: GenCase = serde_json::from_value(case.clone()).map_err(bad)?;
+            props::lib_level::check_c07_inproc(ctx, &c, &mut st)
+        }
+        "C08" => {
+            let c: props::lib_level::SeqCase = serde_json::from_value(case.clone()).map_err(bad)?;
+            props::lib_level::check_c08(ctx, &c, &mut st)
+        }
+        "C14" => {
+            let c: props::lib_level::SeqCase = serde_json::from_value(case.clone()).map_err(bad)?;
+            props::lib_level::check_c14(ctx, &c, &mut st)
+        }
+        "C09" => {
+            let c: GenCase = serde_json::from_value(case.clone()).map_err(bad)?;
+            props::procs::replay_c09(ctx, &c)
+        }
+        "C15" => {
+            if case.get("mutator").is_some() {
+                let c: props::direct::Call = serde_json::from_value(case.clone()).map_err(bad)?;
+                props::direct::check_c15_direct(ctx, &c, &mut st)
+            } else {
+                let c: GenCase = serde_json::from_value(case.clone()).map_err(bad)?;
+                props::c15::check_gen(ctx, &c, &mut st)
+            }
+        }
+        "C16" => {
+            let c: props::direct::Call = serde_json::from_value(case.clone()).map_err(bad)?;
+            props::direct::check_c16(ctx, &c, &mut st)
+        }
+        "C18" => {
+            let c: props::direct::AdapterCase = serde_json::from_value(case.clone()).map_err(bad)?;
+            props::direct::check_c18(ctx, &c, &mut st)
+        }
         "C17" => {
             let c: GenCase = serde_json::from_value(case.clone()).map_err(|e| Fail::new("harness:replay", e.to_string()))?;
             let mut st = crate::runner::Stats::default();
